@@ -27,6 +27,9 @@ type C04Params struct {
 	FirstOnly bool `json:"first_only,omitempty"`
 	// SecondOnly: only the ClientHello that echoes the cookie is rewritten; the first one arrives intact
 	SecondOnly bool `json:"second_only,omitempty"`
+	// Sha384 (DTLS 1.3): TLS_AES_256_GCM_SHA384 on both sides - digests of 48 bytes wherever the
+	// transcript, the synthetic message_hash after a HelloRetryRequest and Finished use the hash
+	Sha384 bool `json:"sha384,omitempty"`
 }
 
 type c04Target struct {
@@ -55,7 +58,10 @@ func c04Targets(ver int, kx string, cauth, resume bool) []c04Target {
 	return t
 }
 
-var c04HelloMuts = []string{"random-bit", "sessionid-bit", "suite-remove", "suite-reorder", "suite-append", "suite-change", "ext-strip", "ext-dup", "ext-alter", "ext-append", "version-byte", "body-bit"}
+var c04HelloMuts = []string{"random-bit", "sessionid-bit", "suite-remove", "suite-reorder", "suite-append", "suite-change", "ext-strip", "ext-dup", "ext-alter", "ext-append", "version-byte", "body-bit",
+	// alterations a lenient decoder normalises away or a server exempts from its comparison of the two
+	// ClientHellos: only the transcript (hashed as received) stands between them and success
+	"pad-append", "comp-extra", "suite-odd-byte"}
 
 func c04Counts(tier string) (int, int) {
 	if tier == "thorough" {
@@ -86,6 +92,7 @@ func c04Gen(r *rand.Rand, tier string, idx int) any {
 	} else {
 		p.Kx = "cert"
 		p.HV = r.IntN(2) == 0
+		p.Sha384 = r.IntN(3) == 0
 	}
 	ts := c04Targets(p.Ver, p.Kx, p.CAuth, p.Resume)
 	t := ts[r.IntN(len(ts))]
@@ -286,6 +293,19 @@ func c04Mutate(body []byte, typ int, mut string, arg int) []byte {
 				}
 				raw.exts = es
 			}
+		case "pad-append":
+			if client {
+				raw.hasExts = true
+				raw.exts = append(append([]Ext(nil), raw.exts...), Ext{21, make([]byte, 1+arg%16)})
+			}
+		case "comp-extra":
+			if client {
+				raw.comp = append(append([]byte(nil), raw.comp...), 1)
+			}
+		case "suite-odd-byte":
+			if client {
+				raw.suites = append(append([]byte(nil), raw.suites...), 0x13)
+			}
 		case "ext-append":
 			raw.hasExts = true
 			raw.exts = append(append([]Ext(nil), raw.exts...), Ext{0xfa00 | uint16(arg&0xff), []byte{1}})
@@ -307,6 +327,9 @@ func c04Run(rc *RunCtx, params any) {
 		cspec, sspec = pair13(suite13AES128)
 		cspec.Suites, sspec.Suites = []uint16{suite13AES128, suite13ChaCha}, []uint16{suite13AES128, suite13ChaCha}
 		cspec.Curves, sspec.Curves = []uint16{0x001d, 0x0017}, []uint16{0x001d, 0x0017} // keeps the ClientHello in one datagram
+		if p.Sha384 {
+			cspec.Suites, sspec.Suites = []uint16{suite13AES256}, []uint16{suite13AES256}
+		}
 	case p.Kx == "cert":
 		cspec, sspec = certPair12(suiteECDSAGCM, "srv-ecdsa")
 		cspec.Suites, sspec.Suites = []uint16{suiteECDSAGCM, suiteECDSACCM, suiteECDSAChaCha}, []uint16{suiteECDSACCM, suiteECDSAGCM, suiteECDSAChaCha}
@@ -451,6 +474,9 @@ func c04Run(rc *RunCtx, params any) {
 			scope = ":second-hello-only"
 		}
 		mutName := p.Mut
+		if p.Mut == "pad-append" && p.Ver == 12 {
+			mutName = "ext-append" // for DTLS 1.2 a padding extension is an appended extension like any other (F12 when only the first hello carries it)
+		}
 		if p.Mut == "body-bit" && p.Type == HTClientHello && lastCH != nil {
 			if parts, okp := locateCH(lastCH); okp && (p.Arg%(8*len(lastCH)))/8 >= parts.extOff {
 				mutName = "body-bit@ext"
